@@ -162,21 +162,8 @@ func ruleR6() *Rule {
 	return &Rule{
 		ID:    "R6",
 		Title: "EXIT-DISCIPLINE: cleanup before failure, completion before success",
-		Props: []string{"C17", "C18", "C19", "C20"},
-		Floor: func(cfg Config, prop string) int {
-			switch prop {
-			case "C17", "C18":
-				return 20
-			case "C20":
-				return 6
-			case "C19":
-				if cfg.Vectors {
-					return 10
-				}
-				return 0
-			}
-			return 26
-		},
+		Props: []string{"C17", "C18", "C19", "C20", "C16"},
+		Floor: floorFor("R6"),
 		Run: func(c *RuleCtx) {
 			r6FileProducers(c)
 			r6ToWriter(c)
